@@ -172,7 +172,9 @@ def print_assumptions(pid, vfile, names, workdir):
             continue
         if 'Closed under the global context' in line or line.strip() in ('Axioms:', ''):
             continue
-        m = re.match(r'^([A-Za-z_][\w\.\']*)\s*:', line)
+        # an assumption is printed as "name : type", or as "name" alone with the type on the
+        # following indented lines when it does not fit
+        m = re.match(r'^([A-Za-z_][\w\.\']*)\s*(:.*)?$', line)
         if m and not line.startswith(' '):
             res[cur].append(m.group(1))
     return res, out
